@@ -20,6 +20,7 @@
 //  D  the two algorithms agree on the length when both converge to the same topology and the same arcs.
 #include "pbt.h"
 #include "mbgen.h"
+#include <iostream>
 using namespace SimTK;
 
 namespace {
@@ -61,12 +62,14 @@ struct Item {
 };
 double surfaceValue(const Item& it, const Vec3& p_S) { return it.value(p_S); }
 
+bool g_noExclusions = false;   // set by directed reproducers
+
 struct Scene {
     mbgen::ModelSpec model; int nb = 1;
     std::vector<Item> items;          // in path order
     int originBody = 0, termBody = 0; Vec3 O_G, T_G, originStation, termStation;
     int alg = 0, tolKind = 0; double smoothTol = 1e-9, curveAcc = 1e-11, tension = 3; bool defaultTol = false;
-    int nObst = 0, nVia = 0;
+    int nObst = 0, nVia = 0; bool pathVariant = false;
 };
 
 Scene decode(const pbt::Tape& t) {
@@ -82,14 +85,16 @@ Scene decode(const pbt::Tape& t) {
     S.curveAcc = g.boolean() ? 1e-12 : 1e-11;
     S.tension = g.logreal(0.1, 100);
     bool allOnOneBody = g.chance(1, 16);
+    S.pathVariant = g.chance(1, 3);
     S.originBody = g.pick(S.nb + 1); S.termBody = g.pick(S.nb + 1);
     Vec3 oOff(0, g.real(-0.3, 0.3), g.real(-0.3, 0.3)), tOff(0, g.real(-0.3, 0.3), g.real(-0.3, 0.3));
     // items from the units after the body units
     for (int u = 1 + S.nb; u <= nUnits && (int)S.items.size() < 5; ++u) {
         pbt::Reader r(t[u]); Item it;
-        it.kind = r.pick(5); it.body = r.pick(S.nb + 1);
+        it.kind = (r.pick(5) + (u - 1 - S.nb)) % 5;   // the unit position offsets the kind: zero units give sphere, cylinder, ellipsoid, torus, via
+        it.body = (r.pick(S.nb + 1) + 1) % (S.nb + 1);   // word 0 -> body 1 (moving)
         if (it.kind == VIA ? S.nVia >= 2 : S.nObst >= 3) continue;
-        double rr = r.uniform(0.25, 0.5), fa = r.uniform(0.6, 1.4), fc = r.uniform(0.6, 1.4), fR = r.uniform(2.5, 4.0);
+        double rr = r.uniform(0.25, 0.5), fa = r.uniform(0.6, 1.4), fc = r.uniform(0.6, 1.4), fR = r.uniform(3.5, 5.0);
         double depthFrac = r.real(-0.3, 0.8); if (depthFrac == 0) depthFrac = 0.3;
         double zoff = r.real(-0.2, 0.2), yoff = r.real(-0.5, 0.5);
         double ax[3]; r.unit3(ax); double ang = r.real(-0.4, 0.4);
@@ -103,10 +108,16 @@ Scene decode(const pbt::Tape& t) {
     const int n = (int)S.items.size(); const double spacing = 2.0, Lx = 0.5 * spacing * (n + 1);
     S.O_G = Vec3(-Lx, 0, 0) + oOff; S.T_G = Vec3(Lx, 0, 0) + tOff;
     int oi = 0, vi = 0;
+    // via points first: offsets from the nominal line origin -> termination; then the obstacles are placed relative to
+    // the polyline origin -> via points -> termination (the path the cable takes when nothing is wrapped)
+    std::vector<Vec3> poly; poly.push_back(S.O_G);
+    for (int i = 0; i < n; ++i) { Item& it = S.items[i]; if (it.kind != VIA) continue; const double x = -Lx + spacing * (i + 1), f = (x + Lx) / (2 * Lx);
+        it.p_G = S.O_G + f * (S.T_G - S.O_G) + Vec3(0, it.X_GS.p()[1], it.X_GS.p()[2]); it.viaIx = vi++; poly.push_back(it.p_G); }
+    poly.push_back(S.T_G);
+    auto onPolyline = [&](double x) { for (size_t k = 0; k + 1 < poly.size(); ++k) if (x <= poly[k + 1][0] || k + 2 == poly.size()) { double f = (x - poly[k][0]) / (poly[k + 1][0] - poly[k][0]); return Vec3(poly[k] + f * (poly[k + 1] - poly[k])); } return poly.back(); };
     for (int i = 0; i < n; ++i) {
-        Item& it = S.items[i]; const double x = -Lx + spacing * (i + 1), f = (x + Lx) / (2 * Lx);
-        const Vec3 onLine = S.O_G + f * (S.T_G - S.O_G); const Rotation smallRot = it.X_GS.R(); const double yoff = it.X_GS.p()[1], zoff = it.X_GS.p()[2];
-        if (it.kind == VIA) { it.p_G = onLine + Vec3(0, yoff, zoff); it.viaIx = vi++; continue; }
+        Item& it = S.items[i]; if (it.kind == VIA) continue; const double x = -Lx + spacing * (i + 1);
+        const Vec3 onLine = onPolyline(x); const Rotation smallRot = it.X_GS.R(); const double zoff = it.X_GS.p()[2];
         it.obstIx = oi++;
         const double rho = it.kind == ELLIPSOID ? it.radii[1] : it.r;    // extent towards +y
         if (it.kind == TORUS) {
@@ -172,8 +183,7 @@ PathData readPath(const Scene& S, const Built& B, const State& s) {
     d.ok = true; return d;
 }
 
-void property(const pbt::Tape& t, pbt::Ctx& ctx) {
-    Scene S = decode(t);
+void judge(Scene& S, pbt::Ctx& ctx) {
     attach(S);
     if (ctx.wantDesc) {
         ctx.desc.precision(17);
@@ -237,12 +247,12 @@ void property(const pbt::Tape& t, pbt::Ctx& ctx) {
     for (int k = 0; k < (int)S.items.size(); ++k) { const Item& it = S.items[k]; if (it.kind == VIA || !d.contact[it.obstIx]) continue;
         const int i = it.obstIx; const Transform X_GS = B.m->mb[it.body].getBodyTransform(s) * it.X_BS; const Transform X_SG = ~X_GS;
         const bool analytic = it.kind == SPHERE || it.kind == CYLINDER;
-        const double tolEnd = 1e-7 * it.size(), tolMid = (analytic ? 1e-7 : 1e-5) * it.size();
+        const double tolEnd = 1e-8 * it.size(), tolMid = (analytic ? 1e-8 : 1e-6) * it.size();   // calibration: observed <= 5e-11 (end points and resampled points)
         for (int e = 0; e < 2; ++e) { const Transform& F = e == 0 ? d.XP[i] : d.XQ[i]; Vec3 pS = X_SG * F.p(); double v = surfaceValue(it, pS); worstSurfEnd = std::max(worstSurfEnd, std::abs(v) / it.size());
             if (!calib && !(std::abs(v) <= tolEnd)) { ctx.fail(std::string(e == 0 ? "initial" : "final") + " contact point of obstacle " + std::to_string(i) + " (" + kindName[it.kind] + ") is off the surface by " + fmt(v)); return; }
             // Frenet frame: x tangent, y surface normal, z binormal; right handed orthonormal is guaranteed by Rotation; y must be my outward normal
             Vec3 nG = X_GS.R() * it.normal(pS); double mis = (Vec3(F.R()(1)) % nG).norm(); worstNormal = std::max(worstNormal, mis);
-            if (!calib && !(mis <= 1e-6 && dot(Vec3(F.R()(1)), nG) > 0)) { ctx.fail("Frenet frame of obstacle " + std::to_string(i) + " (" + kindName[it.kind] + "): y axis " + fmt(Vec3(F.R()(1))) + " is not the outward surface normal " + fmt(nG)); return; } }
+            if (!calib && !(mis <= 1e-9 && dot(Vec3(F.R()(1)), nG) > 0)) { ctx.fail("Frenet frame of obstacle " + std::to_string(i) + " (" + kindName[it.kind] + "): y axis " + fmt(Vec3(F.R()(1))) + " is not the outward surface normal " + fmt(nG)); return; } }
         std::vector<Vec3> pts; const int N = 33;
         cable.calcCurveSegmentResampledPoints(s, CableSpanObstacleIndex(i), N, [&](Vec3 p) { pts.push_back(p); });
         if (!ctx.check((int)pts.size() == N, "calcCurveSegmentResampledPoints delivered " + std::to_string(pts.size()) + " points instead of " + std::to_string(N))) return;
@@ -256,33 +266,54 @@ void property(const pbt::Tape& t, pbt::Ctx& ctx) {
         if (!calib && !(chord >= d.arc[i] - 4 * defect - 1e-5 * it.size())) { ctx.fail("arc length " + fmt(d.arc[i]) + " of obstacle " + std::to_string(i) + " (" + kindName[it.kind] + ") is longer than the curve through its points (chord sum " + fmt(chord) + ", allowed defect " + fmt(4 * defect) + ")"); return; }
     }
     // V5 tangent continuity at the junctions; end tangent directions
-    const double angTol = 4 * tol + 1e-7;
+    const double angTol = 10 * tol + 1e-8; bool cusp = false;   // calibration: observed angle <= 1.22 * tolerance
     for (size_t n = 0; n + 1 < nodes.size(); ++n) {
         Vec3 e = nodes[n + 1].in - nodes[n].out; double len = e.norm(); if (!(len > 1e-9 * scale)) continue; e /= len;
         auto junction = [&](int itemK, bool atP) { if (itemK < 0) return true; const Item& it = S.items[itemK]; if (it.kind == VIA) return true;
             const Transform& F = atP ? d.XP[it.obstIx] : d.XQ[it.obstIx]; Vec3 tg(F.R()(0)); double a = std::atan2((tg % e).norm(), dot(tg, e)); worstAngle = std::max(worstAngle, a / tol);
+            if (calib && a > 1.0) ctx.label(std::string("calib:cusp:") + kindName[it.kind] + (S.alg == 0 ? ":MinimumLength" : ":Scholz2015"));
+            // known finding cusp-accepted-as-smooth: the solver's path error (and getSmoothness) only measures the normal and
+            // binormal components of the segment direction in the Frenet frame, which vanish for an ANTIPARALLEL tangent as
+            // well: a path that reverses direction at a contact point (cusp, angle pi) is reported as smooth and converged.
+            // Site predicate: reported smoothness <= tolerance and a junction whose straight segment points against the tangent.
+            if (dot(tg, e) < 0 && !g_noExclusions && ctx.known("cusp-accepted-as-smooth")) { cusp = true; return false; }
             if (!calib && !(a <= angTol)) { ctx.fail("tangent discontinuity " + fmt(a) + " rad between the straight segment and the curve on obstacle " + std::to_string(it.obstIx) + " (" + kindName[it.kind] + ", " + (atP ? "initial" : "final") + " contact) although smoothness " + fmt(d.smooth) + " <= tolerance " + fmt(tol) + " is reported"); return false; }
             return true; };
-        if (!junction(nodes[n].item, false) || !junction(nodes[n + 1].item, true)) return;
+        if (!junction(nodes[n].item, false) || !junction(nodes[n + 1].item, true)) { if (cusp) { ctx.label("excluded:cusp-accepted-as-smooth"); ctx.reject("known:cusp"); } return; }
         if (n == 0) { Vec3 to(cable.calcOriginTangentDirection(s)); if (!((to - e).norm() <= 1e-9)) { ctx.fail("calcOriginTangentDirection " + fmt(to) + " != direction of the first straight segment " + fmt(e)); return; } }
         if (n + 2 == nodes.size()) { Vec3 tt(cable.calcTerminationTangentDirection(s)); if (!((tt - e).norm() <= 1e-9)) { ctx.fail("calcTerminationTangentDirection " + fmt(tt) + " != direction of the last straight segment " + fmt(e)); return; } }
     }
     // V4 straight segments do not penetrate the obstacles they touch or skip
     {
         size_t n = 0;   // index of the node the current straight segment starts from
-        auto checkSeg = [&](const Vec3& a, const Vec3& b, const Item& it, const char* rel) {
-            const Transform X_SG = ~(B.m->mb[it.body].getBodyTransform(s) * it.X_BS); const double tolPen = 1e-6 * it.size() + 2 * tol * tol * it.size();
+        // tolerance: a segment tangent to the obstacle dips in by <= (angular misalignment)^2 * size (calibration: 1e-16); a skipped
+        // convex obstacle may be grazed (calibration: 1.5e-6 * size once in 60000 cases) -> 1e-4 * size
+        auto checkSeg = [&](const Vec3& a, const Vec3& b, const Item& it, const char* rel, bool skipped) {
+            const Transform X_SG = ~(B.m->mb[it.body].getBodyTransform(s) * it.X_BS); const double tolPen = (skipped ? 1e-4 : 1e-6) * it.size() + 2 * tol * tol * it.size();
             for (int j = 1; j < 48; ++j) { Vec3 p = a + (b - a) * (j / 48.0); double v = surfaceValue(it, X_SG * p); worstPen = std::max(worstPen, -v / it.size());
-                if (!calib && !(v >= -tolPen)) { ctx.fail(std::string("straight segment ") + fmt(a) + " -> " + fmt(b) + " penetrates the " + kindName[it.kind] + " obstacle " + std::to_string(it.obstIx) + " it " + rel + " by " + fmt(-v) + " at " + fmt(p)); return false; } }
+                if (v < -1e-6 * it.size() && v >= -tolPen) ctx.label("grazed-while-skipped");
+                if (calib && v < -tolPen) { ctx.label(std::string("calib:penetration:") + kindName[it.kind] + ":" + rel + (S.alg == 0 ? ":MinimumLength" : ":Scholz2015")); break; }
+                if (!calib && !(v >= -tolPen)) {
+                    // known finding liftoff-without-touchdown-recheck: per iteration a curve gets either the lift-off or the
+                    // touchdown test, and the solve ends as soon as the remaining path is smooth; a curve that lifted off in the
+                    // last iteration is never tested against the straight line that replaces it (only the NEXT solve does that).
+                    // Site predicate: obstacle reported as not in contact, penetrated by the segment that skips it, and a fresh
+                    // solve from this state (which starts with the touchdown test) does detect the contact.
+                    if (skipped && !g_noExclusions) {
+                        bool touches = false; try { State u = s; u.updQ() = s.getQ(); sys.realize(u, Stage::Position); touches = cable.isInContactWithObstacle(u, CableSpanObstacleIndex(it.obstIx)); } catch (const std::exception&) {}
+                        if (touches && ctx.known("liftoff-without-touchdown-recheck")) { ctx.label(std::string("excluded:liftoff-without-touchdown-recheck:") + kindName[it.kind]); ctx.reject("known:liftoff-no-recheck"); return false; } }
+                    ctx.fail(std::string("straight segment ") + fmt(a) + " -> " + fmt(b) + " penetrates the " + kindName[it.kind] + " obstacle " + std::to_string(it.obstIx) + " it " + rel + " by " + fmt(-v) + " at " + fmt(p)); return false; } }
             return true; };
         for (int k = 0; k < (int)S.items.size(); ++k) { const Item& it = S.items[k];
             // the straight segment that starts at nodes[n] ends at nodes[n+1]
             if (it.kind == VIA) { ++n; continue; }
-            if (d.contact[it.obstIx]) { if (!checkSeg(nodes[n].out, nodes[n + 1].in, it, "arrives at") || !checkSeg(nodes[n + 1].out, nodes[n + 2].in, it, "leaves")) return; ++n; }
-            else if (!checkSeg(nodes[n].out, nodes[n + 1].in, it, "skips (reported as not in contact)")) return;
+            if (d.contact[it.obstIx]) { if (!checkSeg(nodes[n].out, nodes[n + 1].in, it, "arrives at", false) || !checkSeg(nodes[n + 1].out, nodes[n + 2].in, it, "leaves", false)) return; ++n; }
+            else if (!checkSeg(nodes[n].out, nodes[n + 1].in, it, "skips (reported as not in contact)", true)) return;
         }
     }
-    if (calib) { auto lab = [&](const char* w, double x) { char b[96]; snprintf(b, sizeof b, "calib:%s:1e%+03d", w, x <= 0 ? -99 : (int)std::ceil(std::log10(x))); ctx.label(b); };
+    if (calib) { static double mx[6] = {0, 0, 0, 0, 0, 0}; double cur[6] = {worstSurfEnd, worstSurfMid, worstChord, worstAngle, worstNormal, worstPen}; bool up = false; for (int i = 0; i < 6; ++i) if (cur[i] > mx[i]) { mx[i] = cur[i]; up = true; }
+        if (up) fprintf(stderr, "CALIB max surfEnd=%.3g surfMid=%.3g chord-arc=%.3g angle/tol=%.3g (tol %.3g) normal=%.3g pen=%.3g\n", mx[0], mx[1], mx[2], mx[3], tol, mx[4], mx[5]);
+        auto lab = [&](const char* w, double x) { char b[96]; snprintf(b, sizeof b, "calib:%s:1e%+03d", w, x <= 0 ? -99 : (int)std::ceil(std::log10(x))); ctx.label(b); };
         lab("surfEnd", worstSurfEnd); lab("surfMid", worstSurfMid); lab("chord-arc", worstChord); lab("angle/tol", worstAngle); lab("normal", worstNormal); lab("pen", worstPen); }
 
     // W forces: power identity, internal force system
@@ -314,15 +345,74 @@ void property(const pbt::Tape& t, pbt::Ctx& ctx) {
             if (!(cable.getSmoothness(u) <= tol)) bad = true;
             for (int i = 0; i < S.nObst; ++i) if ((bool)d.contact[i] != cable.isInContactWithObstacle(u, CableSpanObstacleIndex(i))) topo = true;
             return l; };
-        double fd = 0; bool exc = false;
-        try { double lp = lenAt(h), lm = lenAt(-h), lpp = lenAt(2 * h), lmm = lenAt(-2 * h); fd = (8 * (lp - lm) - (lpp - lmm)) / (12 * h); } catch (const std::exception&) { exc = true; }
-        if (exc) ctx.label("fd:skipped-exception"); else if (topo) ctx.label("fd:skipped-topology-change"); else if (bad) ctx.label("fd:skipped-stencil-unconverged");
+        auto fdAt = [&](double hh) { double lp = lenAt(hh), lm = lenAt(-hh), lpp = lenAt(2 * hh), lmm = lenAt(-2 * hh); return (8 * (lp - lm) - (lpp - lmm)) / (12 * hh); };
+        // rounding/solver noise of one estimate ~ (1e-11 + 10 tol^2) * scale / h; lengthDot itself is first order in the tangent misalignment
+        auto tolAt = [&](double hh) { return 1e-6 * std::max(speed, 1.0) + 10 * tol * std::max(speed, 1.0) + (1e-11 + 10 * tol * tol) * scale / hh; };
+        double fd = 0, tolFD = tolAt(h), errEst = 0; bool exc = false, refined = false, nonsmooth = false;
+        try {
+            fd = fdAt(h);
+            if (!bad && !topo && !(std::abs(fd - Ld) <= tolFD)) {
+                // near lift-off the length has large higher derivatives: refine the step and judge with a measured truncation estimate
+                refined = true; double f1 = fdAt(h / 3), f2 = fdAt(h / 9); errEst = std::abs(f2 - f1); fd = f2; tolFD = tolAt(h / 9) + 2 * errEst;
+                if (errEst > 1e-3 * std::max(speed, 1.0)) nonsmooth = true;
+            }
+        } catch (const std::exception&) { exc = true; }
+        if (getenv("C45_FDSCAN")) for (double hh : {1e-3, 3e-4, 1e-4, 3e-5, 1e-5, 3e-6, 1e-6}) { bool b0 = bad, t0 = topo; bad = topo = false; double v = fdAt(hh); fprintf(stderr, "FDSCAN h=%g fd5=%.10g (lengthDot %.10g) bad=%d topo=%d\n", hh, v, Ld, (int)bad, (int)topo); bad = b0; topo = t0; }
+        if (exc) ctx.label("fd:skipped-exception"); else if (topo) ctx.label("fd:skipped-topology-change"); else if (bad) ctx.label("fd:skipped-stencil-unconverged"); else if (nonsmooth) ctx.label("fd:skipped-nonsmooth");
         else {
-            ctx.label("fd:checked");
-            // truncation ~ h^4, rounding/solver noise ~ (1e-12 + tol^2) * scale / h, lengthDot itself is first order in the tangent misalignment
-            const double tolFD = 1e-6 * std::max(speed, 1.0) + 10 * tol * std::max(speed, 1.0) + (1e-11 + 10 * tol * tol) * scale / h;
-            if (ctx.wantDesc) ctx.desc << "lengthDot=" << Ld << " finite difference=" << fd << " h=" << h << " tolerance=" << tolFD << "\n";
-            if (!(std::abs(fd - Ld) <= tolFD)) { ctx.fail("calcLengthDot " + fmt(Ld) + " != d(length)/dt by finite differences " + fmt(fd) + " (h=" + fmt(h) + ", tolerance " + fmt(tolFD) + ", all stencil states converged with the same contacts)"); return; }
+            ctx.label(refined ? "fd:checked-refined" : "fd:checked");
+            if (ctx.wantDesc) ctx.desc << "lengthDot=" << Ld << " finite difference=" << fd << " h=" << (refined ? h / 9 : h) << " tolerance=" << tolFD << (refined ? " (refined; truncation estimate " + fmt(errEst) + ")" : std::string()) << "\n";
+            if (!(std::abs(fd - Ld) <= tolFD)) { ctx.fail("calcLengthDot " + fmt(Ld) + " != d(length)/dt by finite differences " + fmt(fd) + " (h=" + fmt(refined ? h / 9 : h) + ", tolerance " + fmt(tolFD) + ", all stencil states converged with the same contacts)"); return; }
+        }
+    }
+
+    // R closed form when no obstacle is in contact: lengthDot = sum over straight segments of e . (v_end - v_start)
+    auto stationVel = [&](const mbgen::Built& M, const State& st, int body, const Vec3& station) { return M.mb[body].findStationVelocityInGround(st, station); };
+    if (nContact == 0) {
+        std::vector<Vec3> p, v; p.push_back(d.O); v.push_back(stationVel(*B.m, s, S.originBody, S.originStation));
+        for (auto& it : S.items) if (it.kind == VIA) { p.push_back(d.via[it.viaIx]); v.push_back(stationVel(*B.m, s, it.body, it.station)); }
+        p.push_back(d.T); v.push_back(stationVel(*B.m, s, S.termBody, S.termStation));
+        double ref = 0; bool degenerate = false; for (size_t i = 0; i + 1 < p.size(); ++i) { Vec3 e = p[i + 1] - p[i]; double l = e.norm(); if (l < 1e-6) { degenerate = true; break; } ref += dot(e / l, v[i + 1] - v[i]); }
+        if (!degenerate) { ctx.label("lengthdot:closed-form-checked");
+            if (!(std::abs(ref - Ld) <= 1e-10 * std::max(speed, 1.0))) { ctx.fail("no obstacle in contact: calcLengthDot " + fmt(Ld) + " != sum over straight segments of direction . relative end velocity " + fmt(ref)); return; } }
+    }
+
+    // CablePath + CableTrackerSubsystem with the same end points and via points (no surfaces: the convergence of its surface
+    // solver is not observable through the public interface): closed-form length and length rate, power identity
+    if (S.pathVariant) {
+        ctx.label("cablepath:via-only");
+        mbgen::Built M(S.model); CableTrackerSubsystem tracker(M.sys);
+        CablePath path(tracker, M.mb[S.originBody], S.originStation, M.mb[S.termBody], S.termStation);
+        for (auto& it : S.items) if (it.kind == VIA) CableObstacle::ViaPoint(path, M.mb[it.body], it.station);
+        double Lp = NaN, Lpd = NaN, Pp = NaN, Pc = NaN; Vec3 netF(0), netM(0); std::vector<Vec3> p, v; bool threw = false; std::string what;
+        {   // CablePath.cpp prints debugging text to stdout: silence fd 1 meanwhile
+            fflush(stdout); std::cout.flush(); int saved = dup(1), nul = open("/dev/null", O_WRONLY); if (nul >= 0) { dup2(nul, 1); close(nul); }
+            try {
+                M.finish(S.model); M.setState(S.model); State& sp = M.state; M.sys.realize(sp, Stage::Velocity);
+                Lp = path.getCableLength(sp); Lpd = path.getCableLengthDot(sp);
+                const int nBp = M.matter.getNumBodies(); Vector_<SpatialVec> F(nBp); F = SpatialVec(Vec3(0), Vec3(0)); path.applyBodyForces(sp, T, F); Pp = 0;
+                for (MobilizedBodyIndex b(0); b < nBp; ++b) { const MobilizedBody& mb = M.matter.getMobilizedBody(b); SpatialVec V = mb.getBodyVelocity(sp); Pp += dot(F[b][0], V[0]) + dot(F[b][1], V[1]); netF += F[b][1]; netM += F[b][0] + mb.getBodyOriginLocation(sp) % F[b][1]; }
+                Pc = path.calcCablePower(sp, T);
+                p.push_back(M.mb[S.originBody].findStationLocationInGround(sp, S.originStation)); v.push_back(stationVel(M, sp, S.originBody, S.originStation));
+                for (auto& it : S.items) if (it.kind == VIA) { p.push_back(M.mb[it.body].findStationLocationInGround(sp, it.station)); v.push_back(stationVel(M, sp, it.body, it.station)); }
+                p.push_back(M.mb[S.termBody].findStationLocationInGround(sp, S.termStation)); v.push_back(stationVel(M, sp, S.termBody, S.termStation));
+            } catch (const std::exception& e) { threw = true; what = e.what(); }
+            fflush(stdout); std::cout.flush(); if (saved >= 0) { dup2(saved, 1); close(saved); }
+        }
+        if (threw) { ctx.label("cablepath:exception"); if (ctx.wantDesc) ctx.desc << "CablePath exception: " << what.substr(0, 200) << "\n"; }
+        else {
+            double refL = 0, refLd = 0; bool degenerate = false; for (size_t i = 0; i + 1 < p.size(); ++i) { Vec3 e = p[i + 1] - p[i]; double l = e.norm(); if (l < 1e-6) { degenerate = true; break; } refL += l; refLd += dot(e / l, v[i + 1] - v[i]); }
+            if (degenerate) ctx.label("cablepath:degenerate-segment");
+            else {
+                ctx.label("cablepath:checked");
+                if (ctx.wantDesc) ctx.desc << "CablePath length=" << Lp << " (polyline " << refL << ") lengthDot=" << Lpd << " (closed form " << refLd << ") power=" << Pp << "\n";
+                if (!(std::abs(Lp - refL) <= 1e-12 * std::max(refL, 1.0))) { ctx.fail("CablePath (via points only): getCableLength " + fmt(Lp) + " != length of the polyline through its points " + fmt(refL)); return; }
+                if (!(std::abs(Lpd - refLd) <= 1e-10 * std::max(speed, 1.0))) { ctx.fail("CablePath (via points only): getCableLengthDot " + fmt(Lpd) + " != sum of direction . relative end velocity " + fmt(refLd)); return; }
+                if (!(std::abs(Pp + T * Lpd) <= 1e-9 * T * std::max(speed, 1.0))) { ctx.fail("CablePath (via points only): power of applied forces " + fmt(Pp) + " != -tension*lengthDot " + fmt(-T * Lpd)); return; }
+                if (!(std::abs(Pc - Pp) <= 1e-9 * T * std::max(speed, 1.0))) { ctx.fail("CablePath (via points only): calcCablePower " + fmt(Pc) + " != sum of force . velocity " + fmt(Pp)); return; }
+                if (!(netF.norm() <= 1e-9 * T && netM.norm() <= 1e-9 * T * std::max(refL, 1.0))) { ctx.fail("CablePath (via points only): applied forces are not an internal force system: net force " + fmt(netF) + " net moment " + fmt(netM)); return; }
+                if (S.nObst == 0 && !(std::abs(Lp - d.L) <= 1e-12 * std::max(refL, 1.0))) { ctx.fail("CablePath and CableSpan with the same via points disagree on the length: " + fmt(Lp) + " vs " + fmt(d.L)); return; }
+            }
         }
     }
 
@@ -333,10 +423,13 @@ void property(const pbt::Tape& t, pbt::Ctx& ctx) {
         if (!ok2) ctx.label("alg-compare:other-exception");
         else if (!(d2.smooth <= B2.cable->getSmoothnessTolerance())) ctx.label("alg-compare:other-unconverged");
         else {
-            bool same = true; for (int i = 0; i < S.nObst; ++i) { if (d.contact[i] != d2.contact[i]) same = false; else if (d.contact[i] && std::abs(d.arc[i] - d2.arc[i]) > 0.1 * std::max(d.arc[i], d2.arc[i]) + 1e-6) same = false; }
+            // "the same topology" = the same local solution: equal contact pattern and contact points within 1e-4 of the path
+            // scale (the solvers may legitimately converge to different stationary paths over a doubly curved surface)
+            bool same = true; for (int i = 0; i < S.nObst; ++i) { if (d.contact[i] != d2.contact[i]) same = false;
+                else if (d.contact[i] && ((d.XP[i].p() - d2.XP[i].p()).norm() > 1e-4 * scale || (d.XQ[i].p() - d2.XQ[i].p()).norm() > 1e-4 * scale)) same = false; }
             if (!same) ctx.label("alg-compare:different-branch");
             else { ctx.label("alg-compare:checked");
-                const double tolL = (1e-7 + 100 * tol * tol + 10 * tol * (S.defaultTol ? 1 : 0)) * scale;
+                const double tolL = 1e-6 * scale;   // contact points within 1e-4*scale of each other on a stationary path: second-order length difference
                 if (!(std::abs(d.L - d2.L) <= tolL)) { ctx.fail("the two path algorithms converge to the same contacts and arcs but lengths differ: " + fmt(d.L) + " (" + (S.alg == 0 ? "MinimumLength" : "Scholz2015") + ") vs " + fmt(d2.L)); return; }
                 const double Ld2 = B2.cable->calcLengthDot(s2);
                 if (!(std::abs(Ld - Ld2) <= (1e-6 + 20 * tol) * std::max(speed, 1.0))) { ctx.fail("the two path algorithms agree on the path but not on lengthDot: " + fmt(Ld) + " vs " + fmt(Ld2)); return; }
@@ -345,15 +438,40 @@ void property(const pbt::Tape& t, pbt::Ctx& ctx) {
     }
 }
 
+void property(const pbt::Tape& t, pbt::Ctx& ctx) { Scene S = decode(t); judge(S, ctx); }
+
+// hand-built static scenes for the directed reproducers: everything on Ground except that body 1 (a Pin) exists
+Scene handScene(int alg) { Scene S; S.nb = 1; S.model.bodies.push_back(mbgen::BodySpec()); S.alg = alg; S.smoothTol = 1e-9; S.curveAcc = 1e-11; S.tension = 1; return S; }
+Item handObstacle(int kind, double r, double R, const Vec3& radii, const Vec4& quat, const Vec3& centre, const Vec3& hint, int obstIx) {
+    Item it; it.kind = kind; it.body = 0; it.r = r; it.R = R; it.radii = radii; it.X_GS = Transform(Rotation(Quaternion(quat)), centre); it.hint_S = hint; it.obstIx = obstIx; it.depth = 0; return it; }
+
 pbt::Config config() {
-    pbt::Config c; c.prop = "C45"; c.K = mbgen::K; c.minUnits = 2;
-    c.quick = {300, 4000, 8, 25}; c.thorough = {3000, 60000, 9, 200};
+    pbt::Config c; c.prop = "C45"; c.K = mbgen::K; c.minUnits = 4;
+    c.quick = {1000, 20000, 10, 25}; c.thorough = {10000, 400000, 10, 200};
     c.rule = "rapidcheck tape -> CableSpan scene: 1..3 mbgen bodies (all mobilizer types, generated q, u != 0), origin/termination/obstacles/via points on Ground or any body; 0..3 obstacles {sphere, cylinder, ellipsoid, torus through the hole} and 0..2 via points in generated order along a nominal line, obstacle depth in [-0.3,0.8] radii (negative = clear of the line), contact hints on the obstructing side; both algorithms; smoothness tolerance {1e-9,1e-8,1e-6,default}. Non-trivial: converged path with >= 1 obstacle in contact that is fixed to a moving body.";
     c.assumptions = {"'the path solver converges' = getSmoothness(state) <= getSmoothnessTolerance() at the state and at all four finite-difference stencil states; anything else is rejected/classified, never judged",
                      "surface equations, normals and curvature bounds of sphere/cylinder/ellipsoid/torus are my own (first-order distance for the ellipsoid)",
                      "finite differences along q + h*qdot with the path re-solved from the copied (warm) state; contact topology must be unchanged over the stencil",
                      "straight segments are only required to stay outside the obstacle they arrive at, leave, or skip (the cable is documented to interact with obstacles in order only)"};
-    c.requiredLabels = {"contact:sphere", "contact:cylinder", "contact:ellipsoid", "contact:torus", "item:via", "lift-off", "fd:checked", "alg-compare:checked", "alg:Scholz2015", "alg:MinimumLength"};
+    c.directed.push_back({"torus-cusp-reported-smooth", "cusp-accepted-as-smooth", [](pbt::Ctx& ctx) {
+        // shrunk from a generated case: Scholz2015, torus then sphere between (-3,0,0) and (3,0.3,0)
+        Scene S = handScene(1); S.O_G = Vec3(-3, 0, 0); S.T_G = Vec3(3, 0.29999999999999999, 0);
+        S.items.push_back(handObstacle(TORUS, 0.125, 0.44631287614174653, Vec3(0.125), Vec4(0.69321750736237575, -0.0009935881058023273, 0.71103704818198132, -0.11779141047472655),
+                                       Vec3(-1, 0.39439198170148299, 0.076638225466012955), Vec3(0.052927650400831985, -0.31239592741543365, 0.053379890705955897), 0));
+        S.items.push_back(handObstacle(SPHERE, 0.47051607794128358, 1, Vec3(0.47), Vec4(0.99875026039496617, 0, 0, -0.049979169270678331),
+                                       Vec3(1, 0.059053693315499339, 0.095693670213222504), Vec3(-0.046973227648143635, 0.46816545738185739, 0), 1));
+        S.nObst = 2; g_noExclusions = true; judge(S, ctx); g_noExclusions = false;
+        if (ctx.isRejected) ctx.desc << "(rejected: " << ctx.rejectReason << ")\n";
+    }});
+    c.directed.push_back({"torus-upper-tube-skipped", "liftoff-without-touchdown-recheck", [](pbt::Ctx& ctx) {
+        // ring in the y-z plane, hint on top of the lower part of the tube, but the straight line passes through the upper part
+        Scene S = handScene(0); S.O_G = Vec3(-2, 0.5, 0); S.T_G = Vec3(2, 0.45, -0.05);
+        Rotation R_GS(Pi / 2, YAxis); const double R = 0.346, r = 0.125;
+        S.items.push_back(handObstacle(TORUS, r, R, Vec3(r), R_GS.convertRotationToQuaternion().asVec4(), Vec3(0, 0.185, -0.057), ~R_GS * Vec3(0, -R + r, 0), 0));
+        S.nObst = 1; g_noExclusions = true; judge(S, ctx); g_noExclusions = false;
+        if (ctx.isRejected) ctx.desc << "(rejected: " << ctx.rejectReason << ")\n";
+    }});
+    c.requiredLabels = {"cablepath:checked", "lengthdot:closed-form-checked", "contact:sphere", "contact:cylinder", "contact:ellipsoid", "contact:torus", "item:via", "lift-off", "fd:checked", "alg-compare:checked", "alg:Scholz2015", "alg:MinimumLength"};
     return c;
 }
 } // namespace
